@@ -211,8 +211,9 @@ Definition same_final (c : case) : bool :=
 
 Definition model_agrees (c : case) : bool :=
   if negb (k_expect_ok c) then
-    (* an invocation that must be rejected before the write phase *)
-    negb (Nat.eqb (k_rc c) 0) && match k_ops c with [] => true | _ => false end && same_final c
+    (* an invocation that selects nothing or is rejected: whatever the exit code
+       (that is C16/C18's subject), no operation at all reaches the directory *)
+    match k_ops c with [] => true | _ => false end && same_final c
   else
     let outs := extract_outs (k_ops c) in
     Nat.eqb (k_rc c) 0 &&
